@@ -84,7 +84,16 @@ Line ==
        [] ev.e = "ret"     -> pend[ev.g] # Idle /\ pend[ev.g].at < l /\ Ret(ev.g)
        [] ev.e = "quiesce" -> Quiesce
 
-Silent == /\ \E g \in Threads : TLin(g)
+\* Placement of the silent steps, without loss of generality: a linearization
+\* point can be moved later as long as it stays before the next RETURN line of the
+\* history whose operation is not linearized yet (no reply is observed in between),
+\* so Lin steps are tried only when the next line is such a return.  Every
+\* operation has returned at "quiesce", hence none is left out.
+Silent == /\ l <= Len(Trace)
+          /\ ev.e = "ret"
+          /\ pend[ev.g] # Idle
+          /\ ~pend[ev.g].done
+          /\ \E g \in Threads : TLin(g)
           /\ UNCHANGED l
 
 TraceInit == CInit /\ l = 1
